@@ -325,6 +325,11 @@ CodeList(c) ==
 
 Code(c) == IF c.cls = "List" THEN CodeList(c) ELSE Code1(c)
 
+\* settings.observation_nan_policy only concerns missing targets: for fully observed targets expected_log_prob and log_marginal
+\* denote the same value under every policy (the replay evaluates each such cell under all of them)
+Policies == {"ignore", "mask", "fill"}
+PolicyNeutral(c) == c.cls # "List" /\ c.op \in {"elp", "lm"} => \A p \in Policies : Expected(c) = Expected(c)
+
 \* ---- the machine: one step picks a cell -----------------------------------------------------------
 Start == [cls |-> "none"]
 Init == cfg = Start /\ exp = <<>> /\ code = <<>>
